@@ -131,11 +131,16 @@ def run(tier):
     if tier == "quick":
         ov = [e for i, e in enumerate(ov) if i % 2 == 0]
         entries = [e for i, e in enumerate(entries) if i % 2 == 0 or has_abstract_position(schema, e["doc"])]
-    entries = entries + lattice + ov
-    resps = generate([gen_request(e["schema"].sdl(), e["query"], dict(DEFAULT_OPTS, other_variant=e["ov"])) for e in entries])
+    # precision is not conditional on the Rust-side options either: single-item operations and the lattice once more
+    # under rust normalization + skip-none (+ other-variant as chosen above)
+    rn = [dict(e, opts={"normalization": "rust", "skip_none": True}) for e in entries + lattice + ov if len(e["labels"]) == 1]
+    if tier == "quick":
+        rn = [e for i, e in enumerate(rn) if i % 2 == 0]
+    entries = entries + lattice + ov + rn
+    resps = generate([gen_request(e["schema"].sdl(), e["query"], dict(DEFAULT_OPTS, other_variant=e["ov"], **e.get("opts", {}))) for e in entries])
     farm = Farm("c03")
     for e, r in zip(entries, resps):
-        e["case"] = farm.add(Case(r["tokens"], [("op", "Op")], prelude="pub type Date = String; pub type Zoned = String; pub type date_time = String;")) if r["status"] == "ok" else None
+        e["case"] = farm.add(Case(r["tokens"], [("op", "Op")], prelude="pub type Date = String; pub type Zoned = String; pub type date_time = String; pub type DateTime = String;")) if r["status"] == "ok" else None
     farm.build()
     reqs, meta = [], []
     conforming_of = {}
@@ -180,7 +185,7 @@ def run(tier):
             continue
         outcomes[(kind, "accepted" if ok else "rejected")] = outcomes.get((kind, "accepted" if ok else "rejected"), 0) + 1
         distinct.add((e["query"], e["ov"], kfpred.strip_indices(rpath), kind))
-        label = {"schema": e["schema_name"], "query": e["query"], "other_variant": e["ov"], "corruption": kind, "at": rpath, "payload": payload}
+        label = {"schema": e["schema_name"], "query": e["query"], "other_variant": e["ov"], "options": e.get("opts", "default"), "corruption": kind, "at": rpath, "payload": payload}
         sigs = kfpred.sigs_at(e["sigs"], [rpath])
         key = (e["case"], kind)
         problem = None
